@@ -94,11 +94,14 @@ def mk_ev(lo, hi, n, m, via=None, plain=False):
     if via is None:
         import zlib
         h = zlib.crc32(repr((list(map(float, lo)), list(map(float, hi)), n, m)).encode())
-        via = ("direct", "direct", "direct", "direct", "direct", "direct", "direct", "unit", "shifted", "wide")[h % 10]
+        via = ("direct", "direct", "direct", "direct", "direct", "direct", "unit-int", "unit", "shifted", "wide")[h % 10]
     if via == "direct":
         ev = Evolvent(lo_a, hi_a, n, m)
     else:
-        if via == "unit":
+        if via == "unit-int":
+            # first box integer-typed (as the shipped GKLS problems declare theirs): the re-configuration must not inherit the dtype
+            ev = Evolvent(np.zeros(n, dtype=np.int64), [1] * n, n, m)
+        elif via == "unit":
             ev = Evolvent(np.zeros(n), np.ones(n), n, m)
         elif via == "shifted":
             ev = Evolvent(lo_a + 3.0, hi_a + 4.5, n, m)
